@@ -182,6 +182,7 @@ func UFBytes(name string, outLen int, args ...[]byte) []byte {
 	return out[:outLen]
 }
 func UFInverse(f, g string) {}
+func UFLeftInverse(f, g string) {}
 
 func FlatTime(name string) time.Time            { return time.Unix(0, num(name)).UTC() }
 func TimeFromNanos(ns int64) time.Time          { return time.Unix(0, ns).UTC() }
